@@ -183,7 +183,7 @@ theorem post_act (cfg : Cfg) (s : St) (a : Act) (e : CtxErr) (hi : Inv cfg s) (h
       have := a4 e' hce
       simp_all [errResult, Result.identifies]
   case h3RtReturn => simp [hc, errResult, Result.identifies]
-  case h3BodyReadFail => simp [Result.identifies]
+  case h3BodyReadFail => split <;> simp [hc, errResult, Result.identifies]
   case sleepWake => simp [hc, errResult, Result.identifies]
 
 theorem act_ctx (cfg : Cfg) (s : St) (a : Act) : (apply cfg s a).ctx = s.ctx := by
